@@ -970,6 +970,32 @@ class Rewriter:
 
     # ---- R12: `for (IDX, X) in RECV.iter().enumerate()` whose index only feeds format! arguments (message text)
     #          -> `for X in &RECV`, the index expressions inside the messages replaced by 0usize
+    def drop_debug_only(self, code):
+        """`#[cfg(debug_assertions)] { .. }` / `#[cfg(debug_assertions)] stmt;` are diagnostics that release builds do not
+        contain: dropped (reported in the evidence)"""
+        n = 0
+        while True:
+            m = mask(code)
+            mm = re.search(r'#\[cfg\(debug_assertions\)\]\s*', m)
+            if not mm:
+                break
+            j = mm.end()
+            if j < len(m) and m[j] == '{':
+                e = match_close(m, j) + 1
+            else:
+                depth, e = 0, j
+                while e < len(m) and not (m[e] == ';' and depth == 0):
+                    if m[e] in '([{':
+                        depth += 1
+                    elif m[e] in ')]}':
+                        depth -= 1
+                    e += 1
+                e += 1
+            code = code[:mm.start()] + code[e:]
+            n += 1
+        self.note('#[cfg(debug_assertions)] diagnostics dropped', n)
+        return code
+
     def char_indices_loops(self, code):
         # `for (i, c) in S.char_indices() {` -> counter loop over the collected (byte offset, char) pairs
         k_ci = 0
@@ -1092,6 +1118,7 @@ class Rewriter:
 
     def apply_all(self, code, opts):
         code = self.closure_underscore(code)
+        code = self.drop_debug_only(code)
         code = self.char_indices_loops(code)
         code = self.enumerate_msg_only(code, force_counter=bool(opts.get('counter')))
         if opts.get('fmtcat'):
